@@ -5,7 +5,6 @@ import (
 	"go/constant"
 	"go/token"
 	"go/types"
-	"strings"
 
 	"golang.org/x/tools/go/ssa"
 )
@@ -105,203 +104,6 @@ var ErrorWrappers = map[string]bool{
 	"github.com/pkg/errors.WithStack": true,
 }
 
-// ---------------------------------------------------------------------------
-// Path query
-
-// Query is a reachability question on one function's SSA CFG, with branch
-// folding under assumptions. Paths stop *before* executing an instruction in
-// Cut.
-type Query struct {
-	Fn     *ssa.Function
-	Assume map[ssa.Value]Abs
-	Cut    map[ssa.Instruction]bool
-	// NonEmptyRange: on first entry (not via a back edge) a `range` loop
-	// header takes its body edge. Only set with a reasoned table entry.
-	NonEmptyRange bool
-	// Start, if set, begins exploration after this instruction instead of at
-	// the function entry.
-	Start ssa.Instruction
-}
-
-type pstate struct {
-	pred int // index of predecessor block, -1 entry, -2 unknown
-	blk  int
-}
-
-// Result of a Query.
-type Result struct {
-	q      *Query
-	parent map[pstate]pstate
-	seen   map[pstate]bool
-	limit  map[*ssa.BasicBlock]int // instructions [0,limit) are reachable once the block is
-	first  map[*ssa.BasicBlock]int // for the start block: first reachable instr index
-	byBlk  map[int][]pstate
-
-	hasStart   bool
-	startLimit int
-}
-
-func (q *Query) Run() *Result {
-	r := &Result{q: q, parent: map[pstate]pstate{}, seen: map[pstate]bool{},
-		limit: map[*ssa.BasicBlock]int{}, first: map[*ssa.BasicBlock]int{}, byBlk: map[int][]pstate{}}
-	fn := q.Fn
-	if len(fn.Blocks) == 0 {
-		return r
-	}
-	for _, b := range fn.Blocks {
-		lim := len(b.Instrs)
-		for i, in := range b.Instrs {
-			if q.Cut[in] {
-				lim = i
-				break
-			}
-		}
-		r.limit[b] = lim
-	}
-	var work []pstate
-	start := pstate{-1, 0}
-	startIdx := 0
-	if q.Start != nil {
-		b := q.Start.Block()
-		start = pstate{-2, b.Index}
-		for i, in := range b.Instrs {
-			if in == q.Start {
-				startIdx = i + 1
-			}
-		}
-		r.first[b] = startIdx
-		// a cut before the start in the same block does not apply to the
-		// first visit
-		lim := len(b.Instrs)
-		for i := startIdx; i < len(b.Instrs); i++ {
-			if q.Cut[b.Instrs[i]] {
-				lim = i
-				break
-			}
-		}
-		// handle the start block specially: expand its successors here
-		r.seen[start] = true
-		r.byBlk[b.Index] = append(r.byBlk[b.Index], start)
-		if lim == len(b.Instrs) {
-			for _, s := range r.succs(start) {
-				if !r.seen[s] {
-					r.seen[s] = true
-					r.parent[s] = start
-					r.byBlk[s.blk] = append(r.byBlk[s.blk], s)
-					work = append(work, s)
-				}
-			}
-		}
-		r.startLimit = lim
-		r.hasStart = true
-	} else {
-		r.seen[start] = true
-		r.byBlk[0] = append(r.byBlk[0], start)
-		work = append(work, start)
-	}
-	for len(work) > 0 {
-		st := work[len(work)-1]
-		work = work[:len(work)-1]
-		b := fn.Blocks[st.blk]
-		if r.limit[b] < len(b.Instrs) {
-			continue // cut inside this block
-		}
-		for _, s := range r.succs(st) {
-			if !r.seen[s] {
-				r.seen[s] = true
-				r.parent[s] = st
-				r.byBlk[s.blk] = append(r.byBlk[s.blk], s)
-				work = append(work, s)
-			}
-		}
-	}
-	return r
-}
-
-func (r *Result) succs(st pstate) []pstate {
-	b := r.q.Fn.Blocks[st.blk]
-	if len(b.Instrs) == 0 {
-		return nil
-	}
-	switch t := b.Instrs[len(b.Instrs)-1].(type) {
-	case *ssa.If:
-		if r.q.NonEmptyRange && strings.HasPrefix(b.Comment, "range") && strings.HasSuffix(b.Comment, ".loop") {
-			if st.pred >= 0 && !b.Dominates(r.q.Fn.Blocks[st.pred]) {
-				return []pstate{{st.blk, b.Succs[0].Index}}
-			}
-		}
-		c := r.Eval(t.Cond, st)
-		if v, ok := c.IsBool(); ok {
-			if v {
-				return []pstate{{st.blk, b.Succs[0].Index}}
-			}
-			return []pstate{{st.blk, b.Succs[1].Index}}
-		}
-		return []pstate{{st.blk, b.Succs[0].Index}, {st.blk, b.Succs[1].Index}}
-	case *ssa.Jump:
-		return []pstate{{st.blk, b.Succs[0].Index}}
-	}
-	return nil
-}
-
-// Reaches reports whether the instruction is reachable.
-func (r *Result) Reaches(in ssa.Instruction) bool {
-	return len(r.StatesAt(in)) > 0
-}
-
-// StatesAt lists the (pred,block) states in which the instruction executes.
-func (r *Result) StatesAt(in ssa.Instruction) []pstate {
-	b := in.Block()
-	if b == nil {
-		return nil
-	}
-	idx := -1
-	for i, x := range b.Instrs {
-		if x == in {
-			idx = i
-			break
-		}
-	}
-	if idx < 0 {
-		return nil
-	}
-	var out []pstate
-	for _, st := range r.byBlk[b.Index] {
-		if r.hasStart && st.pred == -2 {
-			if idx >= r.first[b] && idx < r.startLimit {
-				out = append(out, st)
-			}
-			continue
-		}
-		if idx < r.limit[b] {
-			out = append(out, st)
-		}
-	}
-	return out
-}
-
-// Witness renders one path of blocks leading to the state.
-func (r *Result) Witness(p *Prog, st pstate) string {
-	var rev []string
-	cur := st
-	for n := 0; n < 200; n++ {
-		b := r.q.Fn.Blocks[cur.blk]
-		rev = append(rev, fmt.Sprintf("b%d(%s)", b.Index, p.Rel(blockPos(b))))
-		par, ok := r.parent[cur]
-		if !ok {
-			break
-		}
-		cur = par
-	}
-	for i, j := 0, len(rev)-1; i < j; i, j = i+1, j-1 {
-		rev[i], rev[j] = rev[j], rev[i]
-	}
-	if len(rev) > 14 {
-		rev = append(append(rev[:6:6], "..."), rev[len(rev)-7:]...)
-	}
-	return strings.Join(rev, " -> ")
-}
-
 func blockPos(b *ssa.BasicBlock) token.Pos {
 	for _, in := range b.Instrs {
 		if in.Pos().IsValid() {
@@ -312,25 +114,6 @@ func blockPos(b *ssa.BasicBlock) token.Pos {
 		}
 	}
 	return token.NoPos
-}
-
-// Eval evaluates v abstractly in the given state.
-func (r *Result) Eval(v ssa.Value, st pstate) Abs {
-	return r.eval(v, st, 0)
-}
-
-func (r *Result) eval(v ssa.Value, st pstate, depth int) Abs {
-	if depth > 12 {
-		return AUnknown
-	}
-	if a, ok := r.q.Assume[v]; ok {
-		return a
-	}
-	a := r.evalStruct(v, st, depth)
-	if a.K != KUnknown {
-		return a
-	}
-	return r.facts(v, st, depth)
 }
 
 func (r *Result) evalStruct(v ssa.Value, st pstate, depth int) Abs {
@@ -351,7 +134,7 @@ func (r *Result) evalStruct(v ssa.Value, st pstate, depth int) Abs {
 		if x.Block().Index == st.blk && st.pred >= 0 {
 			for i, p := range x.Block().Preds {
 				if p.Index == st.pred {
-					return r.eval(x.Edges[i], pstate{-2, st.pred}, depth+1)
+					return r.eval(x.Edges[i], pstate{fr: st.fr, pred: -2, blk: st.pred}, depth+1)
 				}
 			}
 		}
@@ -360,7 +143,7 @@ func (r *Result) evalStruct(v ssa.Value, st pstate, depth int) Abs {
 			if e == v {
 				continue
 			}
-			a := r.eval(e, pstate{-2, x.Block().Preds[i].Index}, depth+1)
+			a := r.eval(e, pstate{fr: st.fr, pred: -2, blk: x.Block().Preds[i].Index}, depth+1)
 			if a.K == KUnknown {
 				return AUnknown
 			}
@@ -482,7 +265,7 @@ func isNillable(t types.Type) bool {
 // facts derives what is known about v at st from branch edges that dominate
 // the state's block (and from the state's own incoming edge).
 func (r *Result) facts(v ssa.Value, st pstate, depth int) Abs {
-	fn := r.q.Fn
+	fn := st.fr.fn
 	if st.blk < 0 || st.blk >= len(fn.Blocks) {
 		return AUnknown
 	}
@@ -682,49 +465,86 @@ func Extracts(c ssa.Value) map[int][]*ssa.Extract {
 // variable, global or another SSA value ("%t12"). Two loads of the same path
 // are treated as the same value by the pairing rules (assumption: the path is
 // not stored to in between; the rules that rely on it say so).
-func AccessPath(v ssa.Value) string {
+func AccessPath(v ssa.Value) string { return accessPath(nil, v) }
+
+// AccessPathIn is AccessPath with the parameters of helpers entered from root replaced by the path of the
+// argument passed at the helper's only call site: the path names the same location whether the code sits in root or
+// in a private helper of it.
+func AccessPathIn(root *ssa.Function, v ssa.Value) string { return accessPath(root, v) }
+
+func accessPath(root *ssa.Function, v ssa.Value) string {
 	switch x := v.(type) {
 	case *ssa.Parameter:
+		if root != nil && x.Parent() != root {
+			if a := ResolveActual(root, x); a != ssa.Value(x) {
+				return accessPath(root, a)
+			}
+		}
 		return x.Name()
 	case *ssa.FreeVar:
 		return x.Name()
 	case *ssa.Global:
 		return x.Pkg.Pkg.Name() + "." + x.Name()
 	case *ssa.FieldAddr:
-		return AccessPath(x.X) + "." + fieldName(x.X.Type(), x.Field)
+		return accessPath(root, x.X) + "." + fieldName(x.X.Type(), x.Field)
 	case *ssa.Field:
-		return AccessPath(x.X) + "." + fieldName(x.X.Type(), x.Field)
+		return accessPath(root, x.X) + "." + fieldName(x.X.Type(), x.Field)
 	case *ssa.UnOp:
 		if x.Op == token.MUL {
-			return AccessPath(x.X)
+			return accessPath(root, x.X)
 		}
 	case *ssa.IndexAddr:
 		if k, ok := x.Index.(*ssa.Const); ok && k.Value != nil {
-			return AccessPath(x.X) + "[" + k.Value.String() + "]"
+			return accessPath(root, x.X) + "[" + k.Value.String() + "]"
 		}
-		return AccessPath(x.X) + "[%" + x.Index.Name() + "]"
+		return accessPath(root, x.X) + "[%" + x.Index.Name() + "]"
 	case *ssa.Const:
 		if x.Value == nil {
 			return "nil"
 		}
 		return x.Value.String()
 	case *ssa.ChangeType:
-		return AccessPath(x.X)
+		return accessPath(root, x.X)
 	case *ssa.Convert:
-		return AccessPath(x.X)
+		return accessPath(root, x.X)
 	case *ssa.MakeInterface:
-		return AccessPath(x.X)
+		return accessPath(root, x.X)
 	case *ssa.Slice:
 		if x.Low == nil && x.High == nil {
-			return AccessPath(x.X)
+			return accessPath(root, x.X)
 		}
 	case *ssa.Alloc:
+		// a parameter go/ssa spilled to memory because its address is taken: the parameter itself
+		if p := SpilledParam(x); p != nil {
+			return accessPath(root, p)
+		}
 		// a local struct copy: name by the source variable if there is one
 		if x.Comment != "" {
 			return "&" + x.Comment + "@" + x.Name()
 		}
 	}
 	return "%" + v.Name()
+}
+
+// SpilledParam: the alloc is the memory copy go/ssa makes of a parameter whose address is taken (its only store
+// is the parameter, at function entry); returns that parameter.
+func SpilledParam(al *ssa.Alloc) *ssa.Parameter {
+	if al == nil || al.Referrers() == nil {
+		return nil
+	}
+	var p *ssa.Parameter
+	for _, u := range *al.Referrers() {
+		st, ok := u.(*ssa.Store)
+		if !ok || st.Addr != ssa.Value(al) {
+			continue
+		}
+		q, isP := st.Val.(*ssa.Parameter)
+		if !isP || p != nil {
+			return nil
+		}
+		p = q
+	}
+	return p
 }
 
 func fieldName(t types.Type, i int) string {
